@@ -267,6 +267,12 @@ theorem C13_heard_at_arrival_partial (cache : List Rec) (h h0 : History) (pkts :
   rw [hproc]
   exact C13_heard_query_suppressed lower cache h0 pkts T now ty hheard hgap hcov
 
+/-- **The stamp of a heard question is its arrival time** (translated leaves on `now = msg.now` and on the argument of
+`add_question_at_time` in `async_response` — review r3 m7): whenever the assembled query is processed, the `now` handed to `hearQuery` is
+`msgs[-1].now`.  So a deferred truncated query, processed 400–500 ms after it arrived, stops suppressing 999 ms after its **arrival**. -/
+theorem C13_heard_stamp (msgNow : Int) : Gen.BrowserQuery.heard_stamp_arg (Gen.BrowserQuery.heard_stamp msgNow) = msgNow :=
+  GenFacts.QueryMsg.heard_stamp_eq msgNow
+
 /-- a one-packet query asking the PTR question of `_x._tcp.local.` QM, answerable by this host, with no known answers -/
 def exHeardPkt : HeardPacket :=
   { probe := false, questions := [({ name := "_x._tcp.local.", type := 12, class_ := 1, unique := false }, true)], records := [] }
